@@ -2,7 +2,7 @@
   What the relay's stdio calls look like on input in the domain of C05/C06 (no NUL, no marker
   inside a stdout line): one call `prefix ++ line` per line; the shape of the tail calls.
 -/
-import PdshVerif.Relay.RunLemmas
+import PdshVerif.Relay.RunFifo
 
 namespace PdshVerif.Relay
 open PdshVerif.Relay.Spec (split)
@@ -108,21 +108,21 @@ theorem dom_goodLines {S : Bytes} (h : Spec.Dom05 (markerOf readRc) S = true) :
   simpa using this
 
 /-- closed form of a whole stream in the domain (used by Props/C05 and Props/C06) -/
-theorem runStream_closed (t0host : Bytes) {sizeMeta : Nat} (hm1 : 1 ≤ sizeMeta) (hm2 : sizeMeta ≤ 800)
+theorem runStream_closed (t0host : Bytes) {sizeMeta : Nat} (hg : growthOk sizeMeta = true)
     {b0 : PBuf} (hb0 : mkFifoBuf sizeMeta = some b0) (script : List Bytes)
     (hdom : Spec.Dom05 (markerOf readRc) script.flatten = true) :
     (runStream fifoOps cfg host t0host strm readRc b0 script).ems =
       (Spec.lines script.flatten).map (fun l => (⟨strm, labelPrefix cfg.labels cfg.keep host ++ l⟩ : Em)) ++
         tailEms cfg host strm ((Spec.tail script.flatten).length + 1) (Spec.tail script.flatten) false ∧
     (runStream fifoOps cfg host t0host strm readRc b0 script).rc = 0 := by
-  obtain ⟨h1, h2⟩ := runStream_fifo cfg host strm readRc hm1 hm2 t0host hb0 script (dom_room hdom)
+  obtain ⟨h1, h2⟩ := runStream_fifo_ok cfg host strm readRc hg t0host hb0 script (dom_room hdom)
   rw [afterLines_good cfg host strm readRc _ (dom_goodLines readRc hdom)] at h1 h2
   exact ⟨h1, h2⟩
 
 /-- closed form of an ABANDONED stream in the domain: some prefix `x` of what the remote side wrote
     has been read; the stdio calls are those of the complete lines of `x`, then those of the
     unterminated rest of `x`; what was not read (`rest`) is not relayed -/
-theorem runAbandoned_closed (t0host : Bytes) {sizeMeta : Nat} (hm1 : 1 ≤ sizeMeta) (hm2 : sizeMeta ≤ 800)
+theorem runAbandoned_closed (t0host : Bytes) {sizeMeta : Nat} (hg : growthOk sizeMeta = true)
     {b0 : PBuf} (hb0 : mkFifoBuf sizeMeta = some b0) (script : List Bytes)
     (hdom : Spec.Dom05 (markerOf readRc) script.flatten = true) :
     ∃ x rest : Bytes, x ++ rest = script.flatten ∧
@@ -130,11 +130,11 @@ theorem runAbandoned_closed (t0host : Bytes) {sizeMeta : Nat} (hm1 : 1 ≤ sizeM
         (Spec.lines x).map (fun l => (⟨strm, labelPrefix cfg.labels cfg.keep host ++ l⟩ : Em)) ++
           tailEms cfg host strm ((Spec.tail x).length + 1) (Spec.tail x) false ∧
       (∀ b ∈ x, b ≠ 0) := by
-  obtain ⟨hinv0, hq0⟩ := mkFifoBuf_inv sizeMeta b0 hb0
+  obtain ⟨hinv0, hq0⟩ := mkFifoBuf_inv sizeMeta hg b0 hb0
   have h0 : RunInv cfg host strm readRc sizeMeta []
       (({ buf := b0, pipe := [], weof := false, closed := false } : Stream PBuf), 0, []) :=
     ⟨[], rfl, hinv0, by simp [hq0, Spec.split_nil], by simp [afterLines, Spec.split_nil]⟩
-  obtain ⟨h1, _⟩ := feedStep_fifo cfg host strm readRc hm1 hm2 (dom_room hdom) script _ [] (by simp) h0 rfl
+  obtain ⟨h1, _⟩ := feedStep_fifo cfg host strm readRc (dom_room hdom) script _ [] (by simp) h0 rfl
   simp only [runAbandoned]
   generalize List.foldl (feedStep fifoOps cfg host strm readRc)
     (({ buf := b0, pipe := [], weof := false, closed := false } : Stream PBuf), 0, []) script = st at h1 ⊢
@@ -170,7 +170,7 @@ theorem tailEms_plain : ∀ (fuel : Nat) (q : Bytes) (labeled : Bool), q.length 
     unfold tailEms
     by_cases hq : q = []
     · simp [hq]
-    · have hT : 0 < Gen.RELAY_TAILBUF - 1 := by simp [Gen.RELAY_TAILBUF]
+    · have hT : 0 < Gen.RELAY_TAILBUF - 1 := tailbuf_pos
       have hlen : 0 < q.length := List.length_pos_iff.mpr hq
       have hc : cstr (q.take (Gen.RELAY_TAILBUF - 1)) = q.take (Gen.RELAY_TAILBUF - 1) :=
         cstr_of_noNul _ (fun b hb => h0 b (List.mem_of_mem_take hb))
